@@ -87,6 +87,15 @@ def failing (C : Chk) (tab : List FunDef) : List Nat :=
 def maskTable (bad : List Nat) (tab : List FunDef) : List FunDef :=
   tab.zipIdx.map fun p => if bad.contains p.2 then { p.1 with body := [], defaults := [], isOpaque := true } else p.1
 
+/-- the same by NAME (`module.function` of the generated table): facts stated with names survive a source change
+    that merely adds, removes or reorders functions -/
+def failingNames (C : Chk) (tab : List (String × FunDef)) : List String :=
+  (tab.filter fun p => !p.2.ok C).map (·.1)
+
+/-- the table with the named functions made opaque; positions are kept (calls refer to positions) -/
+def maskNames (bad : List String) (tab : List (String × FunDef)) : List FunDef :=
+  tab.map fun p => if bad.contains p.1 then { p.2 with body := [], defaults := [], isOpaque := true } else p.2
+
 /-! ### the three checkers used by the property theorems -/
 
 /-- everything is allowed (the unconditional theorems) -/
